@@ -2,6 +2,8 @@
 pub mod checks;
 mod cfg;
 mod common;
+mod cxx;
+mod cxxrun;
 mod doc;
 mod form;
 mod gen;
@@ -69,6 +71,33 @@ fn main() {
             println!("--- syntax errors: {:?}\n--- panic: {:?}\n--- diagnostics:\n{}", t.syntax_errors, t.panic, t.rendered.clone().unwrap_or_default());
             println!("--- ui:\n{}", t.ui_str().unwrap_or("<none>"));
             println!("--- header:\n{}", t.header_str().unwrap_or("<none>"));
+        }
+        Some("c07-input") => {
+            // debugging aid: print the input a C07 choice sequence decodes to
+            let file = args.get(2).cloned().unwrap_or_else(|| usage());
+            let c: Vec<u32> = serde_json::from_slice(&std::fs::read(&file).expect("read")).expect("json");
+            print!("{}", checks::c07::gen_input(&mut common::Chooser::new(&c)));
+        }
+        Some("cxx-try") => {
+            // debugging aid: translate one file, emit API model + mini-uic, compile (syntax only)
+            let file = args.get(2).cloned().unwrap_or_else(|| usage());
+            let src = std::fs::read_to_string(&file).expect("read file");
+            let t = translate::translate(&src, "T", translate::Mode::Generate);
+            let form = form::decode(t.ui.as_deref().expect("ui")).expect("form");
+            let mut classes = cxx::classes_of(&form);
+            classes.insert("QWidget".into());
+            let b = cxx::new_batch("try");
+            let dir = b.dir.path();
+            std::fs::write(dir.join("qvapi.h"), cxx::emit_api(&classes)).unwrap();
+            std::fs::write(dir.join("ui_t.h"), cxx::mini_uic(&form, "T", "qvapi.h")).unwrap();
+            std::fs::write(dir.join("uisupport_t.h"), t.header.as_deref().expect("header")).unwrap();
+            std::fs::write(dir.join("main.cpp"), "#include \"uisupport_t.h\"\nint main() { return 0; }\n").unwrap();
+            let r = cxx::compile(dir, "main.cpp", None, "g++");
+            println!("ok={}\n{}", r.ok, r.stderr);
+            if args.get(3).is_some() {
+                let keep = b.dir.into_path();
+                println!("kept {}", keep.display());
+            }
         }
         _ => usage(),
     }
